@@ -180,7 +180,7 @@ def exactExt : Ext :=
 example :
     ((defaultNHdr [2, 3, 4]).setQform exactExt
         (some ⟨(quat2mat (⟨0, 1, 0, 0⟩ : Quat Rat)).scaleCols ⟨2, 3, (-1) * 5⟩, ⟨7, 8, 9⟩⟩) 1).getQform exactExt
-        ⟨Gen.n2QuatThr, Gen.floatEps⟩
+        ⟨Gen.n2QuatThr, Gen.floatEps, Gen.xformCodes⟩
       = .ok ⟨(quat2mat (⟨0, 1, 0, 0⟩ : Quat Rat)).scaleCols ⟨2, 3, (-1) * 5⟩, ⟨7, 8, 9⟩⟩ := by
   decide +kernel
 
@@ -191,7 +191,7 @@ theorem qform_orig_counterexample :
     let E : Ext := { exactExt with topEig := fun _ => ⟨1 + 1 / 1125899906842624, 0, 0, 0⟩,
                                    sqrt := fun x => if x = (1 + 1 / 1125899906842624) * (1 + 1 / 1125899906842624)
                                                     then 1 + 1 / 1125899906842624 else sqrtQ x }
-    let f : NFmt := ⟨Gen.n2QuatThr, Gen.floatEps⟩
+    let f : NFmt := ⟨Gen.n2QuatThr, Gen.floatEps, Gen.xformCodes⟩
     let a : Aff Rat := ⟨⟨1, 0, 0, 0, -1, 0, 0, 0, -1⟩, ⟨0, 0, 0⟩⟩
     ((defaultNHdr [2, 3, 4]).setQformOrig E a 1).getQform E f = .error .value ∧
     ((defaultNHdr [2, 3, 4]).setQform E (some a) 1).getQform E f = .ok a := by
@@ -261,34 +261,39 @@ example : shapeZoomAffine [3, 5, 7] ⟨3, 2, 1⟩ true = ⟨⟨-3, 0, 0, 0, 2, 0
 
 /-! ### whole save / load flows, NIfTI -/
 
-/-- No header supplied: whatever the numeric routines and `allclose` do, the reloaded affine is the
+/-- No header supplied: whatever the numeric routines and `allclose` do — and provided the loader's code
+    check accepts code 2 ('aligned'; `gen_xform_codes_ok` re-checks this against the source) — the reloaded affine is the
     image affine rounded to the storage precision (exactly the affine for NIfTI-2 where `rnd = id`),
     carried by the sform with code 2 ('aligned'); the qform code is 0. -/
-theorem nifti_roundtrip_no_header (E : Ext) (f : NFmt) (shape : List Nat) (a : Aff Rat) :
+theorem nifti_roundtrip_no_header (E : Ext) (f : NFmt) (h2 : f.validCodes.contains 2 = true) (shape : List Nat)
+    (a : Aff Rat) :
     niftiRoundtrip E f shape a none = .ok ⟨a.map E.rnd, (some (a.map E.rnd), 2), (none, 0)⟩ :=
-  L.nifti_roundtrip_no_header E f shape a
+  L.nifti_roundtrip_no_header E f h2 shape a
 
 /-- A supplied header whose affine is NOT `allclose` to the image affine is overwritten: same
     result as without a header. -/
-theorem nifti_roundtrip_header_not_close (E : Ext) (f : NFmt) (shape : List Nat) (a : Aff Rat) (h : NHdr)
-    (b : Aff Rat) (hb : ({ h with shape := shape } : NHdr).bestAffine E f = .ok b) (hfar : E.allclose a b = false) :
+theorem nifti_roundtrip_header_not_close (E : Ext) (f : NFmt) (h2 : f.validCodes.contains 2 = true)
+    (shape : List Nat) (a : Aff Rat) (h : NHdr)
+    (b : Aff Rat) (hb : (({ h with shape := shape } : NHdr).checkFix f).bestAffine E f = .ok b)
+    (hfar : E.allclose a b = false) :
     niftiRoundtrip E f shape a (some h) = .ok ⟨a.map E.rnd, (some (a.map E.rnd), 2), (none, 0)⟩ :=
-  L.nifti_roundtrip_header_not_close E f shape a h b hb hfar
+  L.nifti_roundtrip_header_not_close E f h2 shape a h b hb hfar
 
-example : niftiRoundtrip exactExt ⟨Gen.n1QuatThr, Gen.floatEps⟩ [2, 3, 4] ⟨⟨0, 0, 2, 4, 0, 0, 0, -8, 0⟩, ⟨1, 2, 3⟩⟩
+example : niftiRoundtrip exactExt ⟨Gen.n1QuatThr, Gen.floatEps, Gen.xformCodes⟩ [2, 3, 4] ⟨⟨0, 0, 2, 4, 0, 0, 0, -8, 0⟩, ⟨1, 2, 3⟩⟩
       (some ((defaultNHdr [2, 3, 4]).setSform exactExt (some ⟨⟨0, 0, 4, 4, 0, 0, 0, -8, 0⟩, ⟨1, 2, 3⟩⟩) 1))
     = .ok ⟨⟨⟨0, 0, 2, 4, 0, 0, 0, -8, 0⟩, ⟨1, 2, 3⟩⟩, (some ⟨⟨0, 0, 2, 4, 0, 0, 0, -8, 0⟩, ⟨1, 2, 3⟩⟩, 2), (none, 0)⟩ :=
-  nifti_roundtrip_header_not_close exactExt _ _ _ _ ⟨⟨0, 0, 4, 4, 0, 0, 0, -8, 0⟩, ⟨1, 2, 3⟩⟩
+  nifti_roundtrip_header_not_close exactExt _ (by decide +kernel) _ _ _ ⟨⟨0, 0, 4, 4, 0, 0, 0, -8, 0⟩, ⟨1, 2, 3⟩⟩
     (by decide +kernel) (by decide +kernel)
 
 /-- KNOWN FINDING `update_header:allclose-keeps-header-affine`, as a theorem about the code's logic:
     a supplied header whose affine is `allclose` to the image affine is written unchanged, so the
     reloaded affine is the HEADER's affine `b`, not the image affine `a`. -/
 theorem nifti_roundtrip_header_close_keeps_header (E : Ext) (f : NFmt) (shape : List Nat) (a : Aff Rat)
-    (h : NHdr) (b : Aff Rat) (hb : ({ h with shape := shape } : NHdr).bestAffine E f = .ok b)
+    (h : NHdr) (b : Aff Rat) (hb : (({ h with shape := shape } : NHdr).checkFix f).bestAffine E f = .ok b)
     (hclose : E.allclose a b = true) :
-    niftiSavedHeader E f shape a (some h) = .ok { h with shape := shape } ∧
-    (∀ o, niftiRoundtrip E f shape a (some h) = .ok o → o.affine = b) :=
+    niftiSavedHeader E f shape a (some h) = .ok (({ h with shape := shape } : NHdr).checkFix f) ∧
+    (∀ o, niftiRoundtrip E f shape a (some h) = .ok o →
+      o.affine = b ∧ o.sform.2 = (({ h with shape := shape } : NHdr).checkFix f).sformCode) :=
   L.nifti_roundtrip_header_close E f shape a h b hb hclose
 
 /-- … and a concrete instance where that differs from the image affine (zoom 2.00001 against a header
@@ -297,7 +302,55 @@ theorem update_header_allclose_counterexample :
     let a : Aff Rat := ⟨⟨200001 / 100000, 0, 0, 0, 2, 0, 0, 0, 2⟩, ⟨0, 0, 0⟩⟩
     let b : Aff Rat := ⟨⟨2, 0, 0, 0, 2, 0, 0, 0, 2⟩, ⟨0, 0, 0⟩⟩
     let h := (defaultNHdr [2, 3, 4]).setSform exactExt (some b) 2
-    (niftiRoundtrip exactExt ⟨Gen.n2QuatThr, Gen.floatEps⟩ [2, 3, 4] a (some h)).map NOut.affine = .ok b ∧ a ≠ b := by
+    (niftiRoundtrip exactExt ⟨Gen.n2QuatThr, Gen.floatEps, Gen.xformCodes⟩ [2, 3, 4] a (some h)).map NOut.affine = .ok b ∧ a ≠ b := by
+  decide +kernel
+
+/-! ### xform codes: the loader's validity check against the regenerated table -/
+
+/-- The loader (`check_fix` → `_chk_sform_code` / `_chk_qform_code`) keeps exactly the codes of the
+    xform table and resets every other code to 0 … -/
+theorem check_fix_codes (f : NFmt) (h : NHdr) :
+    (f.validCodes.contains h.sformCode = true → (h.checkFix f).sformCode = h.sformCode) ∧
+    (f.validCodes.contains h.sformCode = false → (h.checkFix f).sformCode = 0) ∧
+    (f.validCodes.contains h.qformCode = true → (h.checkFix f).qformCode = h.qformCode) ∧
+    (f.validCodes.contains h.qformCode = false → (h.checkFix f).qformCode = 0) ∧
+    (h.checkFix f).srow = h.srow ∧ (h.checkFix f).quat = h.quat ∧ (h.checkFix f).pixdim = h.pixdim ∧
+    (h.checkFix f).checkFix f = h.checkFix f := by
+  refine ⟨?_, ?_, ?_, ?_, rfl, rfl, rfl, L.checkFix_idem f h⟩ <;> intro hc <;>
+    simp only [NHdr.checkFix, hc, if_true, Bool.false_eq_true, if_false]
+
+/-- … so an sform saved under ANY code of the table (1 … 5, 'template' included) is still the loaded
+    affine, with that code, when the supplied header was kept: the priority rule sees the same code
+    after the load-time check.  (The seeded change `0 <= code <= 4` breaks `5 ∈ validCodes`.) -/
+theorem sform_code_survives_load (E : Ext) (f : NFmt) (shape : List Nat) (a : Aff Rat) (h : NHdr) (c : Nat)
+    (hc : f.validCodes.contains c = true) (hc0 : c ≠ 0) (hs : h.sformCode = c)
+    (hclose : E.allclose a h.srow = true) :
+    ∀ o, niftiRoundtrip E f shape a (some h) = .ok o → o.affine = h.srow ∧ o.sform = (some h.srow, c) := by
+  intro o ho
+  have hcf : (({ h with shape := shape } : NHdr).checkFix f).sformCode = c := by
+    simp only [NHdr.checkFix, hs, hc, if_true]
+  have hb : (({ h with shape := shape } : NHdr).checkFix f).bestAffine E f = .ok h.srow := by
+    simp only [NHdr.bestAffine, hcf, hc0, ne_eq, not_false_eq_true, if_true]; rfl
+  have hk := (L.nifti_roundtrip_header_close E f shape a h h.srow hb hclose).1
+  simp only [niftiRoundtrip, hk, bind, Except.bind, L.checkFix_idem, hb] at ho
+  cases hq : (({ h with shape := shape } : NHdr).checkFix f).qformCoded E f with
+  | error e => simp only [hq] at ho; cases ho
+  | ok q =>
+    simp only [hq, pure, Except.pure, Except.ok.injEq] at ho
+    rw [← ho]
+    refine ⟨rfl, ?_⟩
+    simp only [NHdr.sformCoded, hcf, hc0, if_false]; rfl
+
+example : (Gen.xformCodes.contains 5 = true) ∧ (5 : Nat) ≠ 0 := by decide
+
+/-- the regenerated table is the NIfTI-1 standard's: exactly the codes 0 … 5, every one with its two
+    names, no alias shared between codes (so a name resolves to one code) -/
+theorem gen_xform_codes_ok :
+    Gen.xformCodes = [0, 1, 2, 3, 4, 5] ∧
+    (∀ e ∈ Gen.xformTable, e.2.length = 2) ∧
+    ((Gen.xformTable.flatMap (·.2)).Nodup) ∧
+    (Gen.xformTable.find? (fun e => e.2.contains "template")).map (·.1) = some 5 ∧
+    (Gen.xformTable.find? (fun e => e.2.contains "aligned")).map (·.1) = some 2 := by
   decide +kernel
 
 /-! ### Analyze: voxel sizes only -/
